@@ -445,6 +445,31 @@ func runC10(ctx *core.Ctx, pool *par.Pool) {
 		ctx.Set("depth_"+run.name(), st.Depth)
 		twinsRun += xstate.RunTwins(ctx, pool, twins)
 	}
+	// wide histories: every encoding form of the persisted structures
+	var wide []xstate.TwinTask
+	B, C, R := O{K: pagedrv.OBegin}, O{K: pagedrv.OCommit}, O{K: pagedrv.OReopen}
+	wconts := append([][]O{{B, {K: pagedrv.OAllocAvail, A: 0}, {K: pagedrv.ORollback}}, {B, {K: pagedrv.OAlloc, A: 300}, C, R}}, twinConts...)
+	addWide := func(cfg pagedrv.Cfg, path []O) {
+		wide = append(wide, xstate.TwinTask{Cfg: cfg.Name, PathA: path, PathB: append(append([]O{}, path...), R), Conts: wconts, Class: "reopen-wide"})
+	}
+	for _, n := range []int{126, 127, 254, 255, 256, 300} { // runs around the 255-page overflow form of a region entry
+		addWide(pagedrv.CfgE, []O{B, {K: pagedrv.OAlloc, A: 600}, C, B, {K: pagedrv.OFreeRun, A: 100, B: n}, C})
+		if !ctx.Quick() {
+			addWide(pagedrv.CfgC, []O{B, {K: pagedrv.OAlloc, A: 600}, C, B, {K: pagedrv.OFreeRun, A: 7, B: n}, {K: pagedrv.OFreeRun, A: 0, B: 3}, C})
+		}
+	}
+	// more regions than fit one free-list page (126 at 1 KiB), two and three pages
+	addWide(pagedrv.CfgE, []O{B, {K: pagedrv.OAlloc, A: 600}, C, B, {K: pagedrv.OFreeEveryOther, A: 0}, C})
+	addWide(pagedrv.CfgE, []O{B, {K: pagedrv.OAlloc, A: 260}, C, B, {K: pagedrv.OFreeEveryOther, A: 1}, C})
+	addWide(pagedrv.CfgC, []O{B, {K: pagedrv.OAlloc, A: 800}, C, B, {K: pagedrv.OFreeEveryOther, A: 0}, C, B, {K: pagedrv.OAlloc, A: 5}, C})
+	// more overwrite mappings than fit one page (72 at 1 KiB)
+	addWide(pagedrv.CfgE, []O{B, {K: pagedrv.OAlloc, A: 80}, {K: pagedrv.OWriteAll}, C, B, {K: pagedrv.OWriteAll}, C})
+	addWide(pagedrv.CfgC, []O{B, {K: pagedrv.OAlloc, A: 150}, {K: pagedrv.OWriteAll}, C, B, {K: pagedrv.OWriteAll, B: pagedrv.WPartial}, C, B, {K: pagedrv.OFreeEveryOther, A: 0}, C})
+	// unbounded file grown past the mapped size several times
+	addWide(pagedrv.CfgC, []O{B, {K: pagedrv.OAlloc, A: 70}, {K: pagedrv.OWriteAll}, C, B, {K: pagedrv.OAlloc, A: 70}, C, B, {K: pagedrv.OAlloc, A: 200}, {K: pagedrv.OWrite, A: -1}, C})
+	// pre-sized meta area of exactly 256 pages (a free meta region of 255 pages from the start)
+	twinsRun += xstate.RunTwins(ctx, pool, wide)
+	ctx.Set("wide_histories", len(wide))
 	ctx.Set("reopen_points_compared", reopens)
 	ctx.Set("twin_continuations_compared", twinsRun)
 	finishBFS(ctx, total, twinsRun)
